@@ -118,3 +118,170 @@ Proof.
   - rewrite L. apply andb_false_r.
   - now rewrite L.
 Qed.
+
+(* ---------------------------------------------------------------------------------------------- *)
+(* 2. tables                                                                                       *)
+
+Lemma tbl_get_In t k B : tbl_get t k = Some B -> In (k, B) t.
+Proof.
+  induction t as [|[k' A'] r IH]; simpl; [discriminate|]. destruct (key_eq_dec k k') as [->|].
+  - intros E. injection E as ->. now left.
+  - intros E. right. now apply IH.
+Qed.
+
+Lemma tbl_get_set_same t k A : tbl_get (tbl_set t k A) k = Some A.
+Proof.
+  induction t as [|[k' A'] r IH]; simpl.
+  - destruct (key_eq_dec k k); congruence.
+  - destruct (key_eq_dec k k') as [->|Hne]; simpl.
+    + destruct (key_eq_dec k' k'); congruence.
+    + destruct (key_eq_dec k k'); [congruence|assumption].
+Qed.
+
+Lemma tbl_get_set_other t k A k' : k' <> k -> tbl_get (tbl_set t k A) k' = tbl_get t k'.
+Proof.
+  intros Hne. induction t as [|[k0 A0] r IH]; simpl.
+  - destruct (key_eq_dec k' k); congruence.
+  - destruct (key_eq_dec k k0) as [->|Hk]; simpl.
+    + destruct (key_eq_dec k' k0); congruence.
+    + destruct (key_eq_dec k' k0); [reflexivity|assumption].
+Qed.
+
+Lemma fold_left_elem {S T} (f : S -> T -> S) (I P : S -> Prop) l x s :
+  In x l -> I s -> (forall s y, I s -> I (f s y)) -> (forall s, I s -> P (f s x)) ->
+  (forall s y, I s -> P s -> P (f s y)) -> P (fold_left f l s).
+Proof.
+  intros Hx Hs HI HP Hpres. revert s Hs. induction l as [|y l IH]; intros s Hs; [contradiction|]. simpl.
+  destruct Hx as [->|Hx].
+  - assert (G : forall l' s', I s' -> P s' -> P (fold_left f l' s')).
+    { induction l' as [|z l' IH']; intros s' Is' Ps'; [assumption|]. simpl. apply IH'; auto. }
+    apply G; auto.
+  - apply IH; auto.
+Qed.
+
+Definition lk_len (st : dp_state) : nat := pa_len (s_locked st).
+
+(* ---------------------------------------------------------------------------------------------- *)
+(* 3. one extension step                                                                           *)
+
+Section Ext.
+Variables (votes : list (list N)) (pair_first : N -> N -> bool).
+
+Definition TblOK (st : dp_state) : Prop :=
+  forall bd Y B, In ((bd, Y), B) (s_cur st) -> boundary B = bd /\ pa_len B <= lg_len st.
+
+Definition better_table (st st' : dp_state) : Prop :=
+  (forall k B, tbl_get (s_cur st) k = Some B -> exists B', tbl_get (s_cur st') k = Some B' /\ pa_len B <= pa_len B') /\
+  lg_len st <= lg_len st' /\ lk_len st <= lk_len st'.
+
+Lemma better_refl st : better_table st st.
+Proof. split; [eauto|]. split; lia. Qed.
+
+Lemma better_trans a b c : better_table a b -> better_table b c -> better_table a c.
+Proof.
+  intros (A1 & A2 & A3) (B1 & B2 & B3). split; [|split; lia].
+  intros k B H. destruct (A1 k B H) as (B' & H' & L). destruct (B1 k B' H') as (B'' & H'' & L'). exists B''. split; [assumption|lia].
+Qed.
+
+Lemma ext_step_better A st X : better_table st (ext_step pair_first votes A st X).
+Proof.
+  unfold ext_step. destruct (place pair_first A X votes) as [A' [|]].
+  - split; [|split]; cbn [s_cur s_longest s_locked]; unfold lg_len, lk_len; cbn [s_longest s_locked].
+    + intros k B H. destruct (tbl_get (s_cur st) (boundary A', X)) as [B0|] eqn:E0.
+      * destruct (Nat.ltb_spec (pa_len B0) (pa_len A')); [|eauto].
+        destruct (key_eq_dec k (boundary A', X)) as [->|Hne].
+        -- rewrite tbl_get_set_same. exists A'. split; [reflexivity|]. rewrite E0 in H. injection H as <-. lia.
+        -- rewrite tbl_get_set_other by assumption. eauto.
+      * destruct (key_eq_dec k (boundary A', X)) as [->|Hne]; [congruence|].
+        rewrite tbl_get_set_other by assumption. eauto.
+    + destruct (Nat.ltb_spec (pa_len (s_longest st)) (pa_len A')); lia.
+    + lia.
+  - destruct (negb (pa_eqb A' A) && (pa_len (s_locked st) <? pa_len A')) eqn:E; [|apply better_refl].
+    apply andb_true_iff in E. destruct E as [_ E]. apply Nat.ltb_lt in E.
+    split; [eauto|]. unfold lg_len, lk_len. cbn [s_longest s_locked]. lia.
+Qed.
+
+Lemma ext_step_tblok A st X : TblOK st -> TblOK (ext_step pair_first votes A st X).
+Proof.
+  intros H. unfold ext_step. destruct (place pair_first A X votes) as [A' [|]].
+  - intros bd Y B Hin. cbn [s_cur] in Hin. unfold lg_len. cbn [s_longest].
+    assert (Hlg : pa_len (s_longest st) <= pa_len (if pa_len (s_longest st) <? pa_len A' then A' else s_longest st) /\
+                  pa_len A' <= pa_len (if pa_len (s_longest st) <? pa_len A' then A' else s_longest st)).
+    { destruct (Nat.ltb_spec (pa_len (s_longest st)) (pa_len A')); lia. }
+    assert (Hold : In ((bd, Y), B) (s_cur st) ->
+              boundary B = bd /\ pa_len B <= pa_len (if pa_len (s_longest st) <? pa_len A' then A' else s_longest st)).
+    { intros Hi. destruct (H bd Y B Hi) as [E L]. unfold lg_len in L. split; [assumption|lia]. }
+    assert (Hnew : forall e, In e (tbl_set (s_cur st) (boundary A', X) A') -> e = ((boundary A', X), A') \/ In e (s_cur st))
+      by (intros e; apply tbl_set_In).
+    destruct (tbl_get (s_cur st) (boundary A', X)) as [B0|].
+    + destruct (pa_len B0 <? pa_len A'); [|now apply Hold].
+      destruct (Hnew _ Hin) as [E|Hi]; [injection E as -> -> ->; split; [reflexivity|lia]|now apply Hold].
+    + destruct (Hnew _ Hin) as [E|Hi]; [injection E as -> -> ->; split; [reflexivity|lia]|now apply Hold].
+  - destruct (negb (pa_eqb A' A) && (pa_len (s_locked st) <? pa_len A')); [|assumption].
+    intros bd Y B Hin. exact (H bd Y B Hin).
+Qed.
+
+(* the effect of the step for the placed set itself *)
+Lemma ext_step_post A st X A' ok : place pair_first A X votes = (A', ok) ->
+  let st' := ext_step pair_first votes A st X in
+  (ok = true -> (exists B'', tbl_get (s_cur st') (boundary A', X) = Some B'' /\ pa_len A' <= pa_len B'') /\ pa_len A' <= lg_len st') /\
+  (ok = false -> pa_eqb A' A = false -> pa_len A' <= lk_len st').
+Proof.
+  intros Hpl st'. unfold st', ext_step. rewrite Hpl. destruct ok; split; try discriminate.
+  - intros _. cbn [s_cur]. unfold lg_len. cbn [s_longest]. split.
+    + destruct (tbl_get (s_cur st) (boundary A', X)) as [B0|] eqn:E0.
+      * destruct (Nat.ltb_spec (pa_len B0) (pa_len A')).
+        -- rewrite tbl_get_set_same. eauto.
+        -- rewrite E0. eauto.
+      * rewrite tbl_get_set_same. eauto.
+    + destruct (Nat.ltb_spec (pa_len (s_longest st)) (pa_len A')); lia.
+  - intros _ Hne. rewrite Hne. cbn [negb andb]. unfold lk_len.
+    destruct (Nat.ltb_spec (pa_len (s_locked st)) (pa_len A')); cbn [s_locked]; lia.
+Qed.
+End Ext.
+
+(* ---------------------------------------------------------------------------------------------- *)
+(* 4. what an accepted placement does to the axis                                                  *)
+
+Lemma place_shape pf A x1 x2 votes A' ok : place pf A (mkset x1 x2) votes = (A', ok) ->
+  (A' = A /\ ok = false) \/
+  ((forall a, In a (pa_elems A') <-> In a (pa_elems A) \/ In a (mkset x1 x2)) /\
+   pa_len A' = pa_len A + length (mkset x1 x2) /\ pa_eqb A' A = false).
+Proof.
+  intros Hpl. rewrite place_abs_ok in Hpl.
+  assert (Hshape : forall p, (A', ok) = apply_placed A p ->
+            match p with
+            | PlNone => A' = A /\ ok = false
+            | PlLeft x _ | PlRight x _ => (forall a, In a (pa_elems A') <-> In a (pa_elems A) \/ a = x) /\ pa_len A' = pa_len A + 1 /\ pa_eqb A' A = false
+            | PlBoth u w => (forall a, In a (pa_elems A') <-> In a (pa_elems A) \/ a = u \/ a = w) /\ pa_len A' = pa_len A + 2 /\ pa_eqb A' A = false
+            end).
+  { intros p E. pose proof (apply_placed_eqb A p) as Q. pose proof (apply_placed_len A p) as Ln.
+    rewrite <- E in Q, Ln. cbn [fst] in Q, Ln. destruct A as [M1 M2]. destruct p; cbn [apply_placed fst snd] in E; injection E as -> ->.
+    - auto.
+    - split; [|split; [exact Ln|assumption]]. intros a. rewrite pa_elems_left. unfold pa_elems. cbn [fst snd].
+      rewrite !in_app_iff. simpl. intuition auto.
+    - split; [|split; [exact Ln|assumption]]. intros a. unfold pa_elems. cbn [fst snd].
+      rewrite !in_app_iff. simpl. intuition auto.
+    - split; [|split; [exact Ln|assumption]]. intros a. rewrite pa_elems_both. unfold pa_elems. cbn [fst snd].
+      rewrite !in_app_iff. simpl. intuition auto. }
+  unfold mkset in *. destruct (N.eqb_spec x1 x2) as [->|Hne].
+  - cbn [place_abs] in Hpl. specialize (Hshape _ (eq_sym Hpl)). unfold case_3_abs in *.
+    destruct (boundary A) as [[[a0 a1] a2] a3]. destruct (if isS a1 || isS a2 then _ else _) as [[f c] d].
+    destruct f; [left; exact Hshape|right]. destruct d; destruct Hshape as (H1 & H2 & H3); (split; [|split; [cbn [length]; lia|assumption]]);
+      intros a; rewrite H1; simpl; intuition auto.
+  - assert (G : forall y1 y2, ((y1 = x1 /\ y2 = x2) \/ (y1 = x2 /\ y2 = x1)) ->
+              (A', ok) = apply_placed A (case_2_abs (boundary A) y1 y2 votes) ->
+              (A' = A /\ ok = false) \/
+              ((forall a, In a (pa_elems A') <-> In a (pa_elems A) \/ a = x1 \/ a = x2) /\ pa_len A' = pa_len A + 2 /\ pa_eqb A' A = false)).
+    { intros y1 y2 Hy E. specialize (Hshape _ E). unfold case_2_abs in *.
+      destruct (boundary A) as [[[a0 a1] a2] a3]. destruct (if isS a1 || isS a2 then _ else _) as [[[[f c1] d1] c2] d2].
+      destruct f; [left; exact Hshape|right]. destruct (c2 || d1); destruct Hshape as (H1 & H2 & H3); (split; [|split; assumption]);
+        intros a; rewrite H1; destruct Hy as [[-> ->]|[-> ->]]; intuition auto. }
+    destruct (N.ltb x1 x2); cbn [place_abs] in Hpl.
+    + destruct (pf x1 x2); [destruct (G x1 x2 (or_introl (conj eq_refl eq_refl)) (eq_sym Hpl)) as [H|(H1 & H2 & H3)]|
+                            destruct (G x2 x1 (or_intror (conj eq_refl eq_refl)) (eq_sym Hpl)) as [H|(H1 & H2 & H3)]];
+        [now left|right|now left|right]; (split; [|split; [cbn [length]; lia|assumption]]); intros a; rewrite H1; simpl; intuition auto.
+    + destruct (pf x2 x1); [destruct (G x2 x1 (or_intror (conj eq_refl eq_refl)) (eq_sym Hpl)) as [H|(H1 & H2 & H3)]|
+                            destruct (G x1 x2 (or_introl (conj eq_refl eq_refl)) (eq_sym Hpl)) as [H|(H1 & H2 & H3)]];
+        [now left|right|now left|right]; (split; [|split; [cbn [length]; lia|assumption]]); intros a; rewrite H1; simpl; intuition auto.
+Qed.
